@@ -175,6 +175,11 @@ fn c01_codec<C: Oracle>(rep: &mut Report, thorough: bool, rng: &mut Rng) {
             inputs.push(st.into_bytes());
         }
     }
+    for b in 0..=255u8 {
+        inputs.push(vec![b]);
+        inputs.push(vec![valid[0], b]);
+        inputs.push(vec![b, valid[valid.len() - 1]]);
+    }
     inputs.push("é".as_bytes().to_vec());
     inputs.push(format!("{}é{}", valid[0] as char, valid[0] as char).into_bytes());
     inputs.push("\u{1F9EC}".as_bytes().to_vec());
@@ -983,7 +988,18 @@ fn c19_trim<C: Oracle>(rep: &mut Report, thorough: bool) {
     let valid: Vec<u8> = (0..=255u8).filter(|&b| C::expect_ascii(b).is_some()).collect();
     let invalid: Vec<u8> = [b'x', 0x80, b'\n', b'J'].iter().copied().filter(|&b| C::expect_ascii(b).is_none()).take(2).collect();
     let alpha = vec![valid[0], valid[valid.len() - 1], invalid[0], invalid[1]];
-    for bytes in all_strings(&alpha, if thorough { 6 } else { 5 }) {
+    let mut inputs = all_strings(&alpha, if thorough { 6 } else { 5 });
+    // every byte value as padding / interior byte around acceptable bytes
+    let (v0, v1) = (valid[0], valid[valid.len() - 1]);
+    for b in 0..=255u8 {
+        inputs.push(vec![b]);
+        inputs.push(vec![b, v0]);
+        inputs.push(vec![v0, b]);
+        inputs.push(vec![b, v1, b]);
+        inputs.push(vec![v0, b, v1]);
+        inputs.push(vec![b, b, v0, v1, b]);
+    }
+    for bytes in inputs {
         rep.case(|| format!("trim {} {}", C::NAME, show(&bytes)));
         let first = bytes.iter().position(|&b| C::expect_ascii(b).is_some());
         let last = bytes.iter().rposition(|&b| C::expect_ascii(b).is_some());
